@@ -1885,6 +1885,10 @@ func (w *transformingWriter) Write(data []byte) (n int, err error) {
 		} else {
 			if err := w.flushMessage(); err != nil {
 				w.rw.reportError(err)
+				// The message's buffer may have been swapped (and the one we hold
+				// returned to the pool) before processing failed: let go of it.
+				w.err = err
+				w.buffer = nil
 				return written, err
 			}
 			if w.latestEnvelope.trailer && len(data) == 0 {
